@@ -204,6 +204,13 @@ def gen_response(tape, method='GET', allow_truncate=False, allow_surplus=True, a
         k = tape.draw(len(payload), 'gzid.pos')
         payload = payload[:k + 1] + tape.choice((b'\x1f', b'\x1f\x8b', b'\x1f\x8b\x08\x00'), 'gzid.magic') + payload[k + 1:]
     coded = encode_content(payload, coding, rng)
+    trailing_at = None
+    if coding == 'gzip' and tape.chance(1, 8, 'gzip.trailing'):
+        # bytes behind the end of the compressed stream (padding, a second member): part of the body as transferred - an archive
+        # keeps them - while the decoded content is that of the first stream (what zlib yields; unused data is dropped)
+        trailing_at = len(coded)
+        coded += tape.choice((b'\0' * 8, b'\0', encode_content(b'second member', 'gzip', rng), b'junk after the stream'), 'gzip.trailing.kind')
+        r.desc['trailing_after_coded_stream'] = len(coded) - trailing_at
     r.payload, r.coded, r.coding = payload, coded, coding
     fields = []
     if coding != 'identity':
@@ -306,6 +313,8 @@ def gen_response(tape, method='GET', allow_truncate=False, allow_surplus=True, a
         hints.append(base + 1)
         hints.append(base + 2)
         hints.append(base + len(coded) - 1)
+        if trailing_at is not None:
+            hints.insert(0, base + trailing_at)
     else:
         r.body_wire = b''
     total = len(r.head) + len(r.body_wire)
